@@ -73,6 +73,12 @@ pub struct WorldSpec {
     pub pre_seek: Option<u64>,
     /// TZ environment variable for this world (POSIX form such as "JST-9"); None = UTC
     pub tz: Option<String>,
+    /// further environment variables of the world's process (LANG, LC_ALL, ...)
+    pub env: Vec<(String, String)>,
+    /// FollowExec: writer chunks that land after FollowFileExecutor::new returned and before execute() is called
+    pub land_after_new: usize,
+    /// index into `files` of an input whose every read fails with EIO
+    pub unreadable_file: Option<usize>,
 }
 
 impl WorldSpec {
@@ -100,6 +106,9 @@ impl WorldSpec {
             pipe_inputs: false,
             pre_seek: None,
             tz: None,
+            env: Vec::new(),
+            land_after_new: 0,
+            unreadable_file: None,
         }
     }
 }
@@ -134,6 +143,8 @@ pub struct WorldResult {
     /// simulated nanoseconds that passed in this world
     pub clock_ns: u64,
     pub sleeps: u64,
+    /// seam calls made by threads the SUT spawned itself (0 for the unmodified library)
+    pub foreign_thread_calls: u64,
 }
 
 impl WorldResult {
@@ -177,6 +188,7 @@ impl WorldResult {
                 EvKind::GetRandom => 7,
                 EvKind::Deliver => 8,
                 EvKind::Stat => 9,
+                EvKind::Constructed => 10,
             };
             mix(k);
             if matches!(e.kind, EvKind::Read | EvKind::Seek | EvKind::Open | EvKind::Stat) {
@@ -207,11 +219,9 @@ impl Printer for SimPrinter {
 }
 
 fn parse_format(format: &str) -> OutputFormat {
-    match format {
-        "json" => OutputFormat::Json,
-        "csv" => OutputFormat::CSV(";".to_owned()),
-        _ => OutputFormat::Text,
-    }
+    // through the public parser the command line uses ("text" | "json" | "csv")
+    use std::str::FromStr;
+    OutputFormat::from_str(format).unwrap_or(OutputFormat::Text)
 }
 
 struct DriverOut {
@@ -274,6 +284,21 @@ fn drive(spec: &WorldSpec, running: Arc<AtomicBool>) -> DriverOut {
             let _ = reader.read_to_end(&mut rest);
             seam::with_world(|w| w.on_deliver(&rest));
         }
+        // a thread spawned from inside the simulation stays inside it
+        let path = spec.files[0].0.clone();
+        let from_thread = std::thread::spawn(move || {
+            let mut text = String::new();
+            match File::open(&path) {
+                Ok(mut f) => {
+                    let _ = f.read_to_string(&mut text);
+                }
+                Err(err) => text = format!("error {}", err),
+            }
+            text.len()
+        })
+        .join()
+        .unwrap_or(0);
+        seam::with_world(|w| w.on_deliver(format!("thread read {}", from_thread).as_bytes()));
         println!("probe");
         let _ = std::io::stdout().flush();
         // the clock seam: a one-second sleep must cost no real time and advance the virtual clock
@@ -354,6 +379,8 @@ fn drive(spec: &WorldSpec, running: Arc<AtomicBool>) -> DriverOut {
                 display_options.output_format = parse_format(&spec.format);
                 match FollowFileExecutor::new(running.clone(), file, *head, display_options, ExecutionEngine::new(&tables, &statement)) {
                     Ok(mut executor) => {
+                        // start-up is over: what the writer appends from here on must be delivered
+                        seam::with_world(|w| w.on_constructed(spec.land_after_new));
                         if let Err(err) = executor.execute() {
                             out.status = Status::Err(format!("{}", err));
                         }
@@ -525,6 +552,13 @@ pub fn run_world(spec: &WorldSpec) -> WorldResult {
             for (path, data) in &spec2.extra_files {
                 world.add_file(path, data.clone());
             }
+            if let Some(i) = spec2.unreadable_file {
+                if let Some(path) = spec2.files.get(i).map(|f| f.0.clone()) {
+                    if let Some(f) = world.files.iter_mut().find(|f| f.path == path) {
+                        f.unreadable = true;
+                    }
+                }
+            }
             for chunk in &spec2.appends {
                 world.pending.push_back((0, chunk.clone()));
             }
@@ -541,12 +575,18 @@ pub fn run_world(spec: &WorldSpec) -> WorldResult {
             seam::install(world);
             // the process environment belongs to the scenario too: one SUT thread at a time, nobody else reads it
             std::env::set_var("TZ", spec2.tz.as_deref().unwrap_or("UTC"));
+            for (k, v) in &spec2.env {
+                std::env::set_var(k, v);
+            }
 
             let spec3 = spec2.clone();
             let running2 = running.clone();
             let result = std::panic::catch_unwind(std::panic::AssertUnwindSafe(move || drive(&spec3, running2)));
             let _ = std::io::stdout().flush();
             std::env::set_var("TZ", "UTC");
+            for (k, _) in &spec2.env {
+                std::env::remove_var(k);
+            }
             let world = seam::uninstall();
             let (status, total_lines, total_result_rows) = match result {
                 Ok(out) => (out.status, out.total_lines, out.total_result_rows),
@@ -569,6 +609,7 @@ pub fn run_world(spec: &WorldSpec) -> WorldResult {
                 enoent: world.enoent,
                 clock_ns: world.clock_ns,
                 sleeps: world.sleeps,
+                foreign_thread_calls: world.foreign_thread_calls,
             };
             let _ = tx.send(Msg::Done(Box::new(res)));
         })
@@ -616,6 +657,7 @@ fn empty_result(status: Status, hard: bool, hung: bool) -> WorldResult {
         enoent: 0,
         clock_ns: 0,
         sleeps: 0,
+        foreign_thread_calls: 0,
     }
 }
 
